@@ -148,3 +148,15 @@ def global_after_non_use_occurrence(replay):
         if re.search(r'\b%s\b' % re.escape(nm), before):
             return True
     return False
+
+
+def backslash_before_brace(replay):
+    """F19: the program has a backslash directly before '{' and removing those backslashes makes the failure go away"""
+    text = _text(replay)
+    if '\\{' not in text:
+        return False
+    fixed = text.replace('\\{', '{')
+    mod = importlib.import_module('harness.props.' + replay['property'])
+    if hasattr(mod, 'recheck'):
+        return mod.recheck(replay, fixed) is None
+    return True
